@@ -1,6 +1,7 @@
 PROPS["C11"] = dict(
     pkg="p_map", hooks=["iterable"], level="exploration", design="DESIGN.md §4 C11",
-    technique="structural-invariant PBT: the internal list of the ordered map / of the cache's recency list is walked through an overlay accessor after every generated step (node count, reference counts, deleted nodes), over C10's and C08's generators plus long cache histories",
+    technique="structural-invariant PBT: the internal list of the ordered map / of the cache's recency list is walked through an overlay accessor after every generated step (node count, reference counts, deleted nodes), over C10's and C08's generators plus long cache histories; "
+              "plus a reachability oracle that never looks inside: keys and values are pointers to harness-owned heap objects, removed ones are held through weak pointers only, and after forced garbage collections all but a constant number of them must be gone while the container is alive",
     rule="map part: C10's cases (canonical exhaustive lists for (2 keys, 2 iterators) and (3 keys, 3 iterators) to the depths in exhaustive_parts, plus rapid "
          "lists with 2..300 (one case in 40, thorough 80: 1500..5000) keys, up to 24 open iterators and bulk ops that Run expands into single calls); VerifWalk must show: list well linked and ending "
          "in the sentinel, nodes == Len()+1+deleted, deleted <= open iterators, refSum == open iterators, and with no iterator open nodes == Len()+1 and "
@@ -13,15 +14,31 @@ PROPS["C11"] = dict(
          "every call and after every epilogue call VerifWalk must report: list well formed, refSum==0, deleted==0, nodes==resident+1, resident<=capacity, "
          "in-flight table empty; at every 1000th call nodes<=capacity+1 (independent of the history length). non-trivial = a Clear of a non-empty cache "
          "followed by an insertion and an eviction. A disagreement of the functional oracle is left to C10/C08; the case continues on structure only. "
+         "Reachability part (units map-reach, lru-reach; p_map/reach.go, no hook): case = (container kind, slots, capacity, op list). Kinds: iterable.Map[*Obj,*Obj], iterable.Map[struct key holding a pointer, struct value holding a pointer], "
+         "lru.Cache[*Obj,*Obj], lru.ECache[*Obj PK, comparable struct inner key holding a pointer, *Obj], lru.ExpirableCache[*Obj,*Obj]; slots from {8,64,200,1000,4000}, one case in 12 20000 (thorough: or 100000); cache capacity from "
+         "{slots, 2*slots, slots/2, slots/10}. Ops (slot ranges modulo slots, every list executable): add = insert a FRESH key/value/PK object for every absent slot of a range; thin = remove the present slots of a range except every stride-th "
+         "(stride from {0=none survives,2,3,7,16,50,63,64,65,100,128,257,1000} or anything up to slots, any offset, either direction); touch = cache hit (unlink+relink) / map Remove+Add; clear = Clear() of the cache / the same iterator-and-Remove loop on the map; "
+         "expire (expirable kind: the next touch replaces the entry); maps: open 1..8 iterators spaced over the map, advance all, close all; gc = measurement point. Three cases in four begin with fill-all then thin (maps: optionally with parked iterators) or fill-all, clear, "
+         "insert a few; then up to 8 drawn ops. Every case ends with: close the iterators, measure, insert 3 entries (re-use), measure. The harness holds a strong reference to an object only while its entry is live (caches: until the delete callback) and a weak.Pointer afterwards. "
+         "Measurement: runtime.GC() until, for each of keys / values / primary keys, at most 8 + (open iterators) objects of removed entries still resolve, deadline 10 collections (sync.Pool needs two); more than that after 10 collections = violation "
+         "map:reach-retained / lru:reach-retained - unless the container, asked about up to 64 of the retained keys (Get / Remove), says one is present: then harness and container disagree about the live set, which is C10/C08's business, no verdict. "
+         "The bound does not depend on slots or on the history. non-trivial = a measurement with every iterator closed at <= 1/8 of a peak >= 256 entries. "
          "distinct = hash of the case",
-    assumptions=["'retains nothing' and 'cost does not grow' are decided through the number of list nodes reachable from the head (First() and eviction walk the list from "
+    assumptions=["structural part: 'retains nothing' and 'cost does not grow' are decided through the number of list nodes reachable from the head (First() and eviction walk the list from "
                  "the head), not through timing or heap measurements",
+                 "reachability part: 'keeps reachable' is decided by the garbage collector (weak pointers resolved after runtime.GC()), for keys/values/PKs that are or contain pointers; memory retained without such a pointer "
+                 "(bare list nodes, integer keys) is not seen by it. The constant allowed beyond live and pinned entries is 8 objects per role; the unchanged library was measured (about 30000 cases of all kinds, many seeds, counts left to settle over 4 collections) "
+                 "at never more than 1 key (the stale key of the recycled node that serves as trailing sentinel until the next Add), 0 values, 0 PKs with every iterator closed, and open iterators + 1 keys otherwise; 8 is that plus a margin for runtime effects",
+                 "reachability part: the objects are at least 56 bytes and hold a pointer (never tiny-allocated, so no two share a block); nothing else in the test process refers to them: ops run in functions that have returned before the measurement, "
+                 "the case record is plain integers",
                  "invariants are read through the overlay accessors (*Map).VerifWalk and (*ECache).VerifWalk; if they do not compile the units report inconclusive"],
     units=[
         dict(name="map-exhaustive", pkg="p_map", hooks=["iterable"], run="^TestC11MapExhaustive$", shards=(8, 16), timeout=(200, 1500)),
         dict(name="map-rapid", pkg="p_map", hooks=["iterable"], run="^TestC11MapRapid$", checks=(20000, 200000), shards=(2, 16), timeout=(200, 1500)),
         dict(name="lru-rapid", pkg="p_lru", hooks=["iterable", "lru"], run="^TestC11LruRapid$", checks=(20000, 100000), shards=(2, 16), timeout=(200, 900)),
         dict(name="lru-long", pkg="p_lru", hooks=["iterable", "lru"], run="^TestC11LruLong$", checks=(60, 400), shards=(4, 16), timeout=(200, 900)),
+        dict(name="map-reach", pkg="p_map", hooks=[], run="^TestC11ReachMap$", checks=(150, 700), shards=(4, 8), timeout=(200, 900), env={"GOMAXPROCS": "2"}, shrinktime="8s"),
+        dict(name="lru-reach", pkg="p_map", hooks=[], run="^TestC11ReachLru$", checks=(150, 700), shards=(4, 8), timeout=(200, 900), env={"GOMAXPROCS": "2"}, shrinktime="8s"),
     ],
 )
 
@@ -29,5 +46,7 @@ LEVEL_TEXT["C11"] = (
     "A leak of one list node per call is invisible to functional assertions, so the check counts nodes: after every step of generated map "
     "histories (exhaustive to a depth, random beyond) and of generated cache histories up to 10^5 calls, the internal list must hold exactly the "
     "live entries, the sentinel and the entries pinned by open iterators, with matching reference counts, and for the cache the node count must "
-    "not depend on the history length. Evidence = cases, walks, long histories; not a proof for longer histories."
+    "not depend on the history length. What is kept outside that list (free lists, slabs, stale fields) is asked of the garbage collector: in generated histories whose peak is far above "
+    "the final size (fill, thin out to evenly spread survivors, Clear and re-use; maps with parked iterators; all three caches) the keys/values/PKs of removed entries, held by the harness through "
+    "weak pointers only, must be collected - all but 8 plus the open iterators, whatever the size - while the container is alive. Evidence = cases, walks, long histories, measurements; not a proof for longer histories."
 )
